@@ -124,3 +124,12 @@ package worker
 //@   modifies map[string]time.Time
 //@   ensures !has(wp.exited, uuid)
 //@   ensures forall u string :: u != uuid ==> dom(wp.exited)[u] == old(dom(wp.exited)[u]) && wp.exited[u] == old(wp.exited[u])
+
+// probeRunning: every line of the "crunch-run --list" output is looked at (the
+// loop is not left early - "broken" may precede container UUIDs), and each
+// line that is a bare UUID is reported as running.
+//@ func worker.probeRunning property C14 safety -bounds,-nil
+//@   loop 1: exhaustive
+//@   ghost nrun int = 0
+//@   at assign s#1: set nrun = nrun + ite(s != "" && s != "broken" && splitcount(s, " ") == 1, 1, 0)
+//@   loop 1: invariant len(running) == nrun
